@@ -824,6 +824,16 @@ where
     let mut result = allocator.nil();
 
     for &child in children.iter() {
+        // `- -y` must not be glued to `--y`
+        if matches!(
+            ctx.arena.get(child),
+            mimium_lang::compiler::parser::green::GreenNode::Internal {
+                kind: SyntaxKind::UnaryExpr,
+                ..
+            }
+        ) {
+            result = result.append(allocator.space());
+        }
         result = result.append(cst_to_doc(child, ctx, allocator));
     }
 
